@@ -200,6 +200,55 @@ def _decode(repo, rep):
     rep.check(ok and n >= 1 and n_dec >= 1, "R06.3", g.qualname, "on every path the "
               "candidate is decoded (when requested) before it is parsed",
               construct="decode-before-parse", where=L.where(g))
+    er = repo.const("chameleon.utils", "entity_re")
+    ok = False
+    detail = getattr(er, "pattern", str(er))
+    if hasattr(er, "pattern"):
+        tree = rx.parse(er.pattern, er.flags)
+        parents, names = rx.group_tree(tree)
+        # third group: the entity body
+        body = None
+        for op, av in tree:
+            if op is rx.C.SUBPATTERN and av[0] == 3:
+                body = av[3]
+        if body is not None:
+            info = rx.analyse(body)
+            need = rx.CharSet([(48, 57), (65, 90), (97, 122)])
+            # every character of the body alternatives
+            chars = rx.CharSet()
+
+            def collect(items):
+                nonlocal chars
+                for op, av in items:
+                    if op is rx.C.IN:
+                        chars = chars | rx.in_set(av)
+                    elif op is rx.C.LITERAL:
+                        chars = chars | rx.CharSet([(av, av)])
+                    elif op is rx.C.BRANCH:
+                        for alt in av[1]:
+                            collect(alt)
+                    elif op in (rx.C.MAX_REPEAT, rx.C.MIN_REPEAT):
+                        collect(av[2])
+                    elif op is rx.C.SUBPATTERN:
+                        collect(av[3])
+            # a hexadecimal reference (x3c) and names like frac12 mix
+            # letters and digits: ONE alternative has to accept both
+            alts = [body]
+            data = list(body)
+            if len(data) == 1 and data[0][0] is rx.C.BRANCH:
+                alts = data[0][1][1]
+            per_alt = []
+            for alt in alts:
+                chars = rx.CharSet()
+                collect(alt)
+                per_alt.append(chars)
+            ok = any(c.issuperset(need) for c in per_alt)
+            detail += " alternatives %r" % per_alt
+    rep.check(ok, "R06.3", "chameleon.utils.entity_re",
+              "the entity pattern accepts digits and letters in an entity "
+              "body (decimal and hexadecimal references such as &#x3c;, "
+              "names such as &frac12;)", construct="entity-body-class",
+              detail=detail[:200])
     sub = repo.func("chameleon.utils.substitute_entity")
     t = " ".join(src(s) for s in ast.walk(sub.node)
                  if isinstance(s, ast.stmt))
@@ -258,6 +307,25 @@ def _loop(repo, rep):
         rep.check(ok, "R06.4", site, "the shorter candidate is searched "
                   "again; when none is left the original error propagates",
                   construct="research-or-raise", where=wh, detail=str(body))
+    # nothing but the expression engine may reject a candidate
+    raises = [n for n in ast.walk(g.node) if isinstance(n, ast.Raise)]
+    okr = len(raises) == 1 and raises[0].exc is None and isinstance(
+        getattr(getattr(raises[0], "_parent", None), "_parent", None),
+        ast.ExceptHandler)
+    rep.check(okr, "R06.4", site, "a candidate is rejected only by the "
+              "expression engine: the loop contains no other raise (no "
+              "textual pre-filter on braces or quotes)",
+              construct="only-engine-rejects", where=wh,
+              detail=str([src(r) for r in raises]))
+    conts = [n for n in ast.walk(g.node) if isinstance(n, ast.Continue)]
+    okc = all(isinstance(getattr(n, "_parent", None), (ast.ExceptHandler,
+                                                       ast.If))
+              and (isinstance(n._parent, ast.ExceptHandler) or
+                   src(n._parent.test) == "skip") for n in conts)
+    rep.check(okc and len(conts) == 2, "R06.4", site, "the loop continues "
+              "early only for an escaped '$' and for a shrunk candidate",
+              construct="continues", where=wh,
+              detail=str([src(getattr(n, "_parent", n))[:40] for n in conts]))
     rep.check("text = text[len(m.group()):]" in t, "R06.4", site,
               "after a successful expression the input advances by the full "
               "length of the match", construct="advance", where=wh)
